@@ -260,7 +260,9 @@ func genWorkObjectMon(c *ctx) *gen {
 		case "header", "p2p-header":
 			x, view = full.ConvertToHeaderView().WorkObject, types.HeaderObject
 		case "petx":
-			x, view = full.ConvertToPEtxView(), types.PEtxObject
+			// the PEtx view carries the work object header and the body header only (no wo.tx)
+			pv := full.ConvertToPEtxView()
+			x, view = types.NewWorkObject(pv.WorkObjectHeader(), pv.Body(), nil), types.PEtxObject
 		case "share", "p2p-share":
 			x, view = full.ConvertToWorkObjectShareView(full.Transactions()).WorkObject, types.WorkShareTxObject
 		}
